@@ -9,7 +9,7 @@ ids = [p["id"] for p in props]
 checks = []
 na = []
 for pid in ids:
-    c = checks_conf.CHECKS.get(pid)
+    c = checks_conf.CHECKS.get(pid) if pid in checks_conf.READY else None
     if c is None:
         na.append({"property_id": pid, "reason": checks_conf.NOT_CLAIMED.get(pid, "check not built yet in this session; no claim is made")})
         continue
